@@ -57,3 +57,8 @@ Lemma weekday_q_ok w :
    p <- Weekday_pred w;; p' <- omapM Weekday_number p;; s <- Weekday_succ w;; s' <- omapM Weekday_number s;; Ret (Some (a, b, n, n0, p', s')))
   = Ret (enum_q_spec weekday_names_spec (Weekday_discr w)).
 Proof. destruct w; reflexivity. Qed.
+
+Lemma year_kind_flags_ok k :
+  (a <- YearKind_is_leap k;; b <- YearKind_is_common k;; c <- YearKind_is_reform k;; d <- YearKind_is_skipped k;; Ret (a, b, c, d))
+  = Ret (ykind_flags k).
+Proof. destruct k; reflexivity. Qed.
